@@ -112,6 +112,7 @@ def track(x):
 
 
 _SHARED = {}
+_BUILDER_NAMES = [None]
 
 
 def shared(name, factory):
@@ -573,7 +574,7 @@ def build():
 
     add("hrnp", hytera_samples("hytera/pdu/test_hrnp.py", "hrnp"), 6)
     add("hstrp", hytera_samples("hytera/pdu/test_hstrp.py", "hstrp"), 3)
-    for rel in ("test_hdap.py", "test_rcp.py", "test_lp.py", "test_tmp.py"):
+    for rel in ("test_hdap.py", "test_rcp.py", "test_lp.py", "test_tmp.py", "test_rrs.py"):
         add("hdap_" + rel[5:-3], hytera_samples("hytera/pdu/" + rel, "hdap"), 3)
 
     def ipsc():
@@ -601,6 +602,27 @@ def build():
         return (rr.as_bytes(), len(rr)), []
 
     add("hytera_defaults", hytera_defaults, 2)
+
+    def hdap_wire(svc):
+        """wire messages of one HDAP service (hex literals, so that nothing but the generic entry point is imported) parsed through
+        HDAP.from_bytes alone: the dispatch must find the service whatever else has been imported"""
+        wires = {"RRS": ["11000300040bee69af1a03", "11008000090a000001020000012c6f03", "1100010004ff1571565203"],
+                 "LP": ["88a0010008ffffffff0ba70fece003"],
+                 "TMP": ["0980a2000d80000000ff0000010a35b38d09fb03", "89c0b10019000100000001000000010b000000480065006c006c006f0001a503"],
+                 "RCP": ["02410805000affffffffde03", "0241880100006803", "8245b810000000040007000400ffffffff000000001a03"]}[svc]
+
+        def f(r):
+            from okdmr.dmrlib.hytera.pdu.hdap import HDAP
+            raw = wrap(bytes.fromhex(r.choice(wires)))
+            try:
+                o = HDAP.from_bytes(raw)
+                return (type(o).__name__, o, o.as_bytes()), [raw]
+            except Exception as ex:  # noqa
+                return ex, [raw]
+        return f
+
+    for svc in ("RRS", "LP", "TMP", "RCP"):
+        add("hdap_wire_" + svc, hdap_wire(svc), 2)
 
     def lp_request(r):
         """parse a location request (carries no GPS record)"""
@@ -656,13 +678,16 @@ def build():
                 return ex, []
         return f
 
-    try:
-        from harness.drivers import c12 as _c12
-        _nb = len(_c12.builders())
-    except Exception:  # noqa
-        _nb = 0
-    for i in range(_nb):
-        fam, opname, _ = _c12.builders()[i]
+    # the names of the C12 builders: given by the caller (a cold interpreter must not import the library to learn them) or
+    # read from the driver
+    bnames = _BUILDER_NAMES[0]
+    if bnames is None:
+        try:
+            from harness.drivers import c12 as _c12
+            bnames = [[fam, opname] for fam, opname, _ in _c12.builders()]
+        except Exception:  # noqa
+            bnames = []
+    for i, (fam, opname) in enumerate(bnames):
         add(f"gen_{fam}_{opname}", hytera_generated(i), 2, mutable=(i % 4 == 0))
         add(f"dflt_{fam}_{opname}", hytera_default_built(i), 1, mutable=False)
 
